@@ -62,4 +62,14 @@ def isBody : Ev → Bool | .body => true | _ => false
 
 def count (evs : List Ev) (p : Ev → Bool) : Nat := (evs.filter p).length
 
+/-- the exception flag every `__aexit__` receives -/
+def exitArgs (evs : List Ev) : List Bool :=
+  evs.filterMap fun e => match e with | .exitCall _ w => some w | _ => none
+
+/-- phase of an event: entering, body, exiting -/
+def phase : Ev → Nat
+  | .enterCall _ => 0
+  | .body => 1
+  | .exitCall _ _ => 2
+
 end Haiway.Disposables
